@@ -19,7 +19,9 @@ import (
 
 // c29Case is one replayable execution.
 type c29Case struct {
-	Param  string   `json:"param"`  // parameter type annotation
+	World  string   `json:"world"`          // "A" (tygen prelude + D) or "B" (cdcval prelude)
+	Return string   `json:"return,omitempty"` // returned-value case: the expression a parameterless script returns
+	Param  string   `json:"param"`          // parameter type annotation
 	Script bool     `json:"script"` // script or transaction
 	VM     bool     `json:"vm"`
 	Args   []string `json:"args"` // JSON-CDC encoded arguments (normally one)
@@ -329,61 +331,77 @@ var violationHook func(sig, mode, param string, a arg, res *rt.Result)
 var configs = []struct{ script, vm bool }{{true, false}, {true, true}, {false, false}, {false, true}}
 
 func runC29(env *mc.Env) {
-	w := getWorld()
-	params, skipped := w.params(env.Thorough())
-	if len(skipped) > 0 {
-		env.R.HarnessError("parameter types that do not check: %v", skipped)
-	}
 	uni := universe(mc.Pick(env, 1, 2))
-	env.R.Set("parameter_types", len(params))
 	env.R.Set("universe_arguments", len(uni))
-
-	var poolMu sync.Mutex
-	var pool []*hostSet
-	get := func() *hostSet {
-		poolMu.Lock()
-		defer poolMu.Unlock()
-		if n := len(pool); n > 0 {
-			hs := pool[n-1]
-			pool = pool[:n-1]
-			return hs
+	total := 0
+	for _, name := range []string{"A", "B"} {
+		w := getWorld(name)
+		params, skipped := w.params(env.Thorough())
+		if len(skipped) > 0 {
+			env.R.HarnessError("world %s: parameter types that do not check: %v", name, skipped)
 		}
-		o := newOracle(w.types)
-		hs := &hostSet{o: o}
-		hs.g = newGoodGen(w, o)
-		hs.repl = replacements(hs.g, env.Thorough())
-		for _, c := range configs {
-			h := newHost(w.ledger, c.script, c.vm)
-			hs.hosts[hostIndex(c.script, c.vm)] = h
-			if !c.script {
-				h.overlay = map[string][]byte{}
-				r := newHost(w.ledger, true, c.vm)
-				r.overlay = h.overlay
-				r.readOnly = true
-				hs.readers[hostIndex(true, c.vm)] = r
+		total += len(params)
+		env.R.Set("parameter_types_world_"+name, len(params))
+
+		var poolMu sync.Mutex
+		var pool []*hostSet
+		get := func() *hostSet {
+			poolMu.Lock()
+			defer poolMu.Unlock()
+			if n := len(pool); n > 0 {
+				hs := pool[n-1]
+				pool = pool[:n-1]
+				return hs
 			}
+			return newHostSet(w, env.Thorough())
 		}
-		return hs
-	}
-	put := func(hs *hostSet) {
-		poolMu.Lock()
-		pool = append(pool, hs)
-		poolMu.Unlock()
-	}
-
-	type nonImp struct{ src string }
-	jobs := len(params) + len(nonImportableParams)
-
-	mc.ParallelFor(env, jobs, func(i int) {
-		hs := get()
-		defer put(hs)
-		if i >= len(params) {
-			runNonImportable(env, w, hs, nonImportableParams[i-len(params)], uni)
-			return
+		put := func(hs *hostSet) {
+			poolMu.Lock()
+			pool = append(pool, hs)
+			poolMu.Unlock()
 		}
-		runParam(env, w, hs, params[i], uni)
-	})
-	env.R.BoundCompleted(fmt.Sprintf("%d parameter types x (universe of %d + goods + single mutations) x script/tx x interpreter/VM", len(params), len(uni)))
+
+		nonImp := nonImportableParams
+		var rets [][]retCase
+		if name == "B" {
+			nonImp = nil
+		} else {
+			rets = returnBatches()
+		}
+		jobs := len(params) + len(nonImp) + len(rets)
+		mc.ParallelFor(env, jobs, func(i int) {
+			hs := get()
+			defer put(hs)
+			switch {
+			case i < len(params):
+				runParam(env, w, hs, params[i], uni)
+			case i < len(params)+len(nonImp):
+				runNonImportable(env, w, hs, nonImp[i-len(params)], uni)
+			default:
+				runReturns(env, w, hs, rets[i-len(params)-len(nonImp)])
+			}
+		})
+	}
+	env.R.BoundCompleted(fmt.Sprintf("%d parameter types x (universe of %d + goods + single mutations) x script/tx x interpreter/VM; returned values: every denotable type of the universe as a type value + %d expressions", total, len(uni), len(returnExprs)))
+}
+
+func newHostSet(w *world, full bool) *hostSet {
+	o := newOracle(w)
+	hs := &hostSet{o: o}
+	hs.g = newGoodGen(w, o)
+	hs.repl = replacements(hs.g, full)
+	for _, c := range configs {
+		h := newHost(w.ledger, c.script, c.vm)
+		hs.hosts[hostIndex(c.script, c.vm)] = h
+		if !c.script {
+			h.overlay = map[string][]byte{}
+			r := newHost(w.ledger, true, c.vm)
+			r.overlay = h.overlay
+			r.readOnly = true
+			hs.readers[hostIndex(true, c.vm)] = r
+		}
+	}
+	return hs
 }
 
 // argsFor builds the argument list of one parameter type.
@@ -471,7 +489,7 @@ func runParam(env *mc.Env, w *world, hs *hostSet, p param, uni []arg) {
 			break
 		}
 		h := hs.hosts[hostIndex(c.script, c.vm)]
-		src := source(p.Source, c.script, deep)
+		src := w.source(p.Source, c.script, deep)
 		mode := modeName(c.script, c.vm)
 		accepted := 0
 		var readBack func() *rt.Result
@@ -509,7 +527,7 @@ func runParam(env *mc.Env, w *world, hs *hostSet, p param, uni []arg) {
 				if violationHook != nil {
 					violationHook(j.sig, mode, p.Source, a, res)
 				}
-				env.R.Violation(j.sig, c29Case{Param: p.Source, Script: c.script, VM: c.vm, Args: a.JSON, Origin: a.Origin},
+				env.R.Violation(j.sig, c29Case{World: w.name, Param: p.Source, Script: c.script, VM: c.vm, Args: a.JSON, Origin: a.Origin},
 					fmt.Sprintf("[%s] parameter %s, argument (%s) %s: %s", mode, p.Source, a.Origin, trunc(strings.Join(a.JSON, " , "), 400), j.detail))
 			case "rejected":
 				if sent[i].ok() {
@@ -581,7 +599,7 @@ func runNonImportable(env *mc.Env, w *world, hs *hostSet, src string, uni []arg)
 	var evals int64
 	for _, c := range configs {
 		h := hs.hosts[hostIndex(c.script, c.vm)]
-		prog := source(src, c.script, false)
+		prog := w.source(src, c.script, false)
 		n := 0
 		for i, a := range uni {
 			if a.IsType && i%16 != 0 {
@@ -593,7 +611,7 @@ func runNonImportable(env *mc.Env, w *world, hs *hostSet, src string, uni []arg)
 			entered := len(res.Logs) > 0
 			if res.Class != "user" || entered {
 				env.R.Violation(fmt.Sprintf("%s|non-importable-parameter-type|%s|entered=%v", entryName(c.script), res.Class, entered),
-					c29Case{Param: src, Script: c.script, VM: c.vm, Args: a.JSON, Origin: a.Origin},
+					c29Case{World: w.name, Param: src, Script: c.script, VM: c.vm, Args: a.JSON, Origin: a.Origin},
 					fmt.Sprintf("[%s] parameter type %s is not importable, argument %s: class %s %s", modeName(c.script, c.vm), src, trunc(a.JSON[0], 200), res.Class, res.ErrString()))
 			}
 		}
@@ -607,12 +625,20 @@ func replayC29(env *mc.Env, raw json.RawMessage) (bool, string) {
 	if err := json.Unmarshal(raw, &c); err != nil {
 		return false, err.Error()
 	}
-	w := getWorld()
-	o := newOracle(w.types)
+	if c.World == "" {
+		c.World = "A"
+	}
+	w := getWorld(c.World)
+	if c.Return != "" {
+		res := runFresh(w.ledger.Clone(), returnSource(w.imports, []string{c.Return}), nil, true, c.VM)
+		sig, detail := judgeReturn(res)
+		return sig != "", fmt.Sprintf("[%s] return %s: class=%s kind=%s -> %s %s", modeName(true, c.VM), c.Return, res.Class, res.Kind, sig, detail)
+	}
+	o := newOracle(w)
 	T, err := w.paramType(c.Param)
 	deep := err == nil && alwaysStorable(T, 0)
 	l := w.ledger.Clone()
-	res := runFresh(l, source(c.Param, c.Script, deep), c.raw(), c.Script, c.VM)
+	res := runFresh(l, w.source(c.Param, c.Script, deep), c.raw(), c.Script, c.VM)
 	if err != nil {
 		// a parameter type that is not importable: the program must be refused
 		entered := len(res.Logs) > 0
